@@ -8,6 +8,7 @@ package main
 import (
 	"encoding/binary"
 	"fmt"
+	"hash/fnv"
 	"math"
 	"sort"
 
@@ -335,8 +336,19 @@ func runScenario(c *vlib.Ctx, sc scen, j *vlib.Job) {
 		n += total(b)
 	}
 	outcomes := map[string]bool{}
+	// every distinct (fault set, delivered sequence, chunking) observed: compared below with an exploration
+	// that does not use happens-before state hashing
+	observed := map[string]bool{}
+	obsKey := func(x *vsync.Execution, got []int, info string) string {
+		h := fnv.New64a()
+		for _, g := range got {
+			fmt.Fprintf(h, "%d,", g)
+		}
+		return fmt.Sprintf("%v|%s|%d|%x", x.Faults, info, x.Leaked, h.Sum64())
+	}
 	st := vsync.ExploreAll(vsync.Options{Bound: sc.Bound, Stop: c.Expired, Prune: true}, body, func(x *vsync.Execution, prefix []int) bool {
 		got, info := result()
+		observed[obsKey(x, got, info)] = true
 		rep := func() scen {
 			r := sc
 			r.Prefix = append([]int{}, x.Choices...)
@@ -382,6 +394,36 @@ func runScenario(c *vlib.Ctx, sc scen, j *vlib.Job) {
 	}
 	for o := range outcomes {
 		j.Count("chunking:"+sc.Kind+":"+o, 1)
+	}
+	// cross-check of the pruning on scenarios small enough to enumerate without it: the same exploration
+	// with state hashing off must observe exactly the same set of outcomes
+	if n <= 8 && !st.Capped && st.Pruned > 0 {
+		plain := map[string]bool{}
+		st2 := vsync.ExploreAll(vsync.Options{Bound: sc.Bound, Stop: c.Expired, MaxExec: 40000}, body, func(x *vsync.Execution, prefix []int) bool {
+			got, info := result()
+			plain[obsKey(x, got, info)] = true
+			return true
+		})
+		if !st2.Capped {
+			same := len(plain) == len(observed)
+			for k := range plain {
+				if !observed[k] {
+					same = false
+				}
+			}
+			if !same {
+				j.HarnessError("%s %v: exploration with happens-before state hashing observed %d distinct outcomes, without it %d", sc.Kind, sc.Batches, len(observed), len(plain))
+			}
+			j.Count("pruning-crosschecked-scenarios", 1)
+			j.Count("pruning-crosscheck-executions-unpruned", st2.Executions)
+			j.Count("pruning-crosscheck-executions-pruned", st.Executions)
+			if len(sc.Batches) > 1 {
+				j.Count("pruning-crosschecked-multi-producer-scenarios", 1)
+			}
+			if len(plain) > 1 {
+				j.Count("pruning-crosschecked-scenarios-with-several-outcomes", 1)
+			}
+		}
 	}
 	if len(sc.Batches) > 1 {
 		j.Count("multi-producer-executions", st.Executions)
@@ -495,6 +537,8 @@ func main() {
 	c.Guard("Close flushed a remainder in some execution", closeFlush, "")
 	c.Guard("Close found an empty buffer in some execution", closeEmpty, "")
 	c.Guard("schedules with >=2 enabled threads explored", m.Counters["executions-with-choice"] > 1000, fmt.Sprint(m.Counters["executions-with-choice"]))
+	c.Guard("pruning cross-checked against unpruned exploration on small scenarios (>= 20, >= 3 with several producers)", m.Counters["pruning-crosschecked-scenarios"] >= 20 && m.Counters["pruning-crosschecked-multi-producer-scenarios"] >= 3,
+		fmt.Sprintf("%d scenarios (%d multi-producer, %d with several distinct outcomes): %d unpruned vs %d pruned executions", m.Counters["pruning-crosschecked-scenarios"], m.Counters["pruning-crosschecked-multi-producer-scenarios"], m.Counters["pruning-crosschecked-scenarios-with-several-outcomes"], m.Counters["pruning-crosscheck-executions-unpruned"], m.Counters["pruning-crosscheck-executions-pruned"]))
 	c.Guard("multi-producer executions", m.Counters["multi-producer-executions"] > 1000, fmt.Sprint(m.Counters["multi-producer-executions"]))
 	samples := m.Samples
 	if len(samples) == 0 {
